@@ -531,14 +531,18 @@ pub fn list_is_empty(bdd: &Rc<Bdd>, builder: &mut SemTypeContext) -> Result<IsEm
     Ok(is_empty)
 }
 
+// `accum`: the member type required by the positive atoms met so far on this path; `None` while no
+// atom on the path declares the key. Object types are open: an atom that does not declare the key
+// says nothing about it, so in an intersection `A & B` where only `A` declares `k` the member type
+// is A's (it used to be `A[k] & never`).
 fn bdd_mapping_member_type_inner(
     ctx: &SemTypeContext,
     b: Rc<Bdd>,
     key: MappingStrKey,
-    accum: Rc<SemType>,
+    accum: Option<Rc<SemType>>,
 ) -> anyhow::Result<Rc<SemType>> {
     match b.as_ref() {
-        Bdd::True => Ok(accum),
+        Bdd::True => Ok(accum.unwrap_or_else(|| SemTypeContext::never().into())),
         Bdd::False => Ok(SemTypeContext::never().into()),
         Bdd::Node {
             atom,
@@ -551,12 +555,23 @@ fn bdd_mapping_member_type_inner(
                 Atom::Map(a) => ctx.get_map_atomic(*a),
                 _ => unreachable!(),
             };
-            let a = mapping_member_type_inner(b_atom_type.clone(), key.clone())?;
-            let a = a.intersect(&accum)?;
-            let a = bdd_mapping_member_type_inner(ctx, left.clone(), key.clone(), a.clone())?;
+            let declared = mapping_atomic_applicable_member_types_inner(
+                b_atom_type.clone(),
+                key.clone(),
+            )?;
+            let a = if declared.is_empty() {
+                accum.clone()
+            } else {
+                let a = mapping_member_type_inner(b_atom_type.clone(), key.clone())?;
+                match &accum {
+                    Some(acc) => Some(a.intersect(acc)?),
+                    None => Some(a),
+                }
+            };
+            let a = bdd_mapping_member_type_inner(ctx, left.clone(), key.clone(), a)?;
 
             let b = bdd_mapping_member_type_inner(ctx, middle.clone(), key.clone(), accum.clone())?;
-            let c = bdd_mapping_member_type_inner(ctx, right.clone(), key, accum.clone())?;
+            let c = bdd_mapping_member_type_inner(ctx, right.clone(), key, accum)?;
 
             Ok(a.union(&b.union(&c)?)?)
         }
@@ -759,12 +774,7 @@ pub fn mapping_indexed_access(
                 },
             };
             match string_key {
-                Some(sk) => bdd_mapping_member_type_inner(
-                    ctx,
-                    bdd.clone(),
-                    sk,
-                    SemTypeContext::unknown().into(),
-                ),
+                Some(sk) => bdd_mapping_member_type_inner(ctx, bdd.clone(), sk, None),
                 None => bdd_mapped_record_member_type_inner_val(
                     ctx,
                     bdd.clone(),
